@@ -510,7 +510,6 @@ impl Builder {
 //@extract multiboot2/src/builder.rs :: impl Builder :: fn add_custom_tag
 //@  ret r
 //@  rules R7
-//@  rewrite /panic!\("Only for custom types!"\);/ => /controlled_panic();/
 //@  rewrite /custom_tag\.header\(\)\.typ\.into\(\)/ => /TagType::from(custom_tag.header().typ)/
 //@  spec:
 //@    requires panics_allowed(),
@@ -523,34 +522,35 @@ impl Builder {
 
 //@extract multiboot2/src/builder.rs :: impl Builder :: fn build
 //@  ret r
+//@  capture BR /let\s+mut\s+(\w+)\s*=\s*Vec::new\(\)/
 //@  rewrite /\.as_bytes\(\)\.as_ref\(\)/ => /.as_bytes().vbytes()/ x*
-//@  rewrite /for i in &self\.modules\b/ => /for i in it: &self.modules/
-//@  rewrite /for i in &self\.smbios\b/ => /for i in it: &self.smbios/
-//@  rewrite /for i in &self\.custom_tags\b/ => /for i in it: &self.custom_tags/
-//@  rewrite /new_boxed\(header, byte_refs\.as_slice\(\)\)\s*\}$/ => /let boxed: Box<DynSizedStructure<BootInformationHeader>> = new_boxed(header, byte_refs.as_slice());\n        proof { lemma_mb2_layouts(); let eb = obj_bytes(&end_tag); assert(decode::<TagHeader>(eb) == end_tag.header); assert(eb.len() == 8); assert(concat_slices(byte_refs@).len() == flat(self.slots()).len() + 8); assert(obj_bytes(&*boxed).subrange(8, 8 + flat(self.slots()).len() as int + 8) == flat(self.slots()).add(eb)); }\n        boxed\n    }/
-//@  ghoststmt 2 => assert(concat_slices(byte_refs@) == flat(self.s1()) && all_mult8(self.s1()));
-//@  ghoststmt 3 => assert(concat_slices(byte_refs@) == flat(self.s2()) && all_mult8(self.s2()));
-//@  ghoststmt 4 => assert(concat_slices(byte_refs@) == flat(self.s3()) && all_mult8(self.s3()));
-//@  ghoststmt 5 => assert(concat_slices(byte_refs@) == flat(self.s4()) && all_mult8(self.s4()));
-//@  ghoststmt 6 => assert(concat_slices(byte_refs@) == flat(self.s5()) && all_mult8(self.s5()));
-//@  ghoststmt 7 => assert(concat_slices(byte_refs@) == flat(self.s6()) && all_mult8(self.s6()));
-//@  ghoststmt 8 => assert(concat_slices(byte_refs@) == flat(self.s7()) && all_mult8(self.s7()));
-//@  ghoststmt 9 => assert(concat_slices(byte_refs@) == flat(self.s8()) && all_mult8(self.s8()));
-//@  ghoststmt 10 => assert(concat_slices(byte_refs@) == flat(self.s9()) && all_mult8(self.s9()));
-//@  ghoststmt 11 => assert(concat_slices(byte_refs@) == flat(self.s10()) && all_mult8(self.s10()));
-//@  ghoststmt 12 => assert(concat_slices(byte_refs@) == flat(self.s11()) && all_mult8(self.s11()));
-//@  ghoststmt 13 => assert(concat_slices(byte_refs@) == flat(self.s12()) && all_mult8(self.s12()));
-//@  ghoststmt 14 => assert(concat_slices(byte_refs@) == flat(self.s13()) && all_mult8(self.s13()));
-//@  ghoststmt 15 => assert(concat_slices(byte_refs@) == flat(self.s14()) && all_mult8(self.s14()));
-//@  ghoststmt 16 => assert(concat_slices(byte_refs@) == flat(self.s15()) && all_mult8(self.s15()));
-//@  ghoststmt 17 => assert(concat_slices(byte_refs@) == flat(self.s16()) && all_mult8(self.s16()));
-//@  ghoststmt 18 => assert(concat_slices(byte_refs@) == flat(self.s17()) && all_mult8(self.s17()));
-//@  ghoststmt 19 => assert(concat_slices(byte_refs@) == flat(self.s18()) && all_mult8(self.s18()));
-//@  ghoststmt 20 => assert(concat_slices(byte_refs@) == flat(self.s19()) && all_mult8(self.s19()));
-//@  ghoststmt 21 => assert(concat_slices(byte_refs@) == flat(self.s20()) && all_mult8(self.s20()));
-//@  ghoststmt 22 => assert(concat_slices(byte_refs@) == flat(self.s21()) && all_mult8(self.s21()));
-//@  ghoststmt 23 => assert(concat_slices(byte_refs@) == flat(self.s22()) && all_mult8(self.s22()));
-//@  ghoststmt 25 => assert(concat_slices(byte_refs@) == flat(self.slots()).add(obj_bytes(&end_tag))); proof { lemma_all_mult8_flat(self.slots()); lemma_round8_props(8 + flat(self.slots()).len() as int + 8); }
+//@  rewrite /for (\w+) in &self\.modules\b/ => /for \1 in it: &self.modules/
+//@  rewrite /for (\w+) in &self\.smbios\b/ => /for \1 in it: &self.smbios/
+//@  rewrite /for (\w+) in &self\.custom_tags\b/ => /for \1 in it: &self.custom_tags/
+//@  rewrite /new_boxed\(header, $BR\.as_slice\(\)\)\s*\}$/ => /let boxed: Box<DynSizedStructure<BootInformationHeader>> = new_boxed(header, $BR.as_slice());\n        proof { lemma_mb2_layouts(); let eb = obj_bytes(&end_tag); assert(decode::<TagHeader>(eb) == end_tag.header); assert(eb.len() == 8); assert(concat_slices($BR@).len() == flat(self.slots()).len() + 8); assert(obj_bytes(&*boxed).subrange(8, 8 + flat(self.slots()).len() as int + 8) == flat(self.slots()).add(eb)); }\n        boxed\n    }/
+//@  ghoststmt 0 of /\.push\(/ => assert(concat_slices($BR@) == flat(self.s1()) && all_mult8(self.s1()));
+//@  ghoststmt 1 of /\.push\(/ => assert(concat_slices($BR@) == flat(self.s2()) && all_mult8(self.s2()));
+//@  ghoststmt 2 of /\.push\(/ => assert(concat_slices($BR@) == flat(self.s3()) && all_mult8(self.s3()));
+//@  ghoststmt 3 of /\.push\(/ => assert(concat_slices($BR@) == flat(self.s4()) && all_mult8(self.s4()));
+//@  ghoststmt 4 of /\.push\(/ => assert(concat_slices($BR@) == flat(self.s5()) && all_mult8(self.s5()));
+//@  ghoststmt 5 of /\.push\(/ => assert(concat_slices($BR@) == flat(self.s6()) && all_mult8(self.s6()));
+//@  ghoststmt 6 of /\.push\(/ => assert(concat_slices($BR@) == flat(self.s7()) && all_mult8(self.s7()));
+//@  ghoststmt 7 of /\.push\(/ => assert(concat_slices($BR@) == flat(self.s8()) && all_mult8(self.s8()));
+//@  ghoststmt 8 of /\.push\(/ => assert(concat_slices($BR@) == flat(self.s9()) && all_mult8(self.s9()));
+//@  ghoststmt 9 of /\.push\(/ => assert(concat_slices($BR@) == flat(self.s10()) && all_mult8(self.s10()));
+//@  ghoststmt 10 of /\.push\(/ => assert(concat_slices($BR@) == flat(self.s11()) && all_mult8(self.s11()));
+//@  ghoststmt 11 of /\.push\(/ => assert(concat_slices($BR@) == flat(self.s12()) && all_mult8(self.s12()));
+//@  ghoststmt 12 of /\.push\(/ => assert(concat_slices($BR@) == flat(self.s13()) && all_mult8(self.s13()));
+//@  ghoststmt 13 of /\.push\(/ => assert(concat_slices($BR@) == flat(self.s14()) && all_mult8(self.s14()));
+//@  ghoststmt 14 of /\.push\(/ => assert(concat_slices($BR@) == flat(self.s15()) && all_mult8(self.s15()));
+//@  ghoststmt 15 of /\.push\(/ => assert(concat_slices($BR@) == flat(self.s16()) && all_mult8(self.s16()));
+//@  ghoststmt 16 of /\.push\(/ => assert(concat_slices($BR@) == flat(self.s17()) && all_mult8(self.s17()));
+//@  ghoststmt 17 of /\.push\(/ => assert(concat_slices($BR@) == flat(self.s18()) && all_mult8(self.s18()));
+//@  ghoststmt 18 of /\.push\(/ => assert(concat_slices($BR@) == flat(self.s19()) && all_mult8(self.s19()));
+//@  ghoststmt 19 of /\.push\(/ => assert(concat_slices($BR@) == flat(self.s20()) && all_mult8(self.s20()));
+//@  ghoststmt 20 of /\.push\(/ => assert(concat_slices($BR@) == flat(self.s21()) && all_mult8(self.s21()));
+//@  ghoststmt 21 of /\.push\(/ => assert(concat_slices($BR@) == flat(self.s22()) && all_mult8(self.s22()));
+//@  ghoststmt 22 of /\.push\(/ => assert(concat_slices($BR@) == flat(self.slots()).add(obj_bytes(&end_tag))); proof { lemma_all_mult8_flat(self.slots()); lemma_round8_props(8 + flat(self.slots()).len() as int + 8); }
 //@  spec:
 //@    requires
 //@        // the structure must be representable: its byte length fits the u32 total_size field
@@ -568,17 +568,17 @@ impl Builder {
 //@  loop 0:
 //@            invariant
 //@                it.index@ <= self.modules@.len(),
-//@                concat_slices(byte_refs@) == flat(push_upto(self.s2(), self.mods(), it.index@ as int)),
+//@                concat_slices($BR@) == flat(push_upto(self.s2(), self.mods(), it.index@ as int)),
 //@                all_mult8(push_upto(self.s2(), self.mods(), it.index@ as int)),
 //@  loop 1:
 //@            invariant
 //@                it.index@ <= self.smbios@.len(),
-//@                concat_slices(byte_refs@) == flat(push_upto(self.s12(), self.smbs(), it.index@ as int)),
+//@                concat_slices($BR@) == flat(push_upto(self.s12(), self.smbs(), it.index@ as int)),
 //@                all_mult8(push_upto(self.s12(), self.smbs(), it.index@ as int)),
 //@  loop 2:
 //@            invariant
 //@                it.index@ <= self.custom_tags@.len(),
-//@                concat_slices(byte_refs@) == flat(push_upto(self.s21(), self.custs(), it.index@ as int)),
+//@                concat_slices($BR@) == flat(push_upto(self.s21(), self.custs(), it.index@ as int)),
 //@                all_mult8(push_upto(self.s21(), self.custs(), it.index@ as int)),
 //@end
 }
